@@ -136,7 +136,7 @@ def gen_compound(rng, depth=0, ind=""):
     deco = ""
     if r < 0.5 and rng.random() < 0.4:
         k = rng.randint(1, 2)
-        decos = [rng.choice(["@dec", "@dec(1)", "@a.b", "@dec(x,\n     y)", "@ dec", "@decs[0]", "@(lambda f: f)", "@a.b(c)(d)"]) for _ in range(k)]
+        decos = [rng.choice(["@dec", "@dec(1)", "@a.b", "@dec(x,\n     y)", "@ dec", "@decs[0]", "@(lambda f: f)", "@a.b(c)(d)", "@(\n  dec\n)", "@ (  # c @ q\n dec @ x\n )"]) for _ in range(k)]
         deco = "".join(ind + d + rng.choice(["\n", "\n", "  # dc\n", "\n" + ind + "# between decorators\n"]) for d in decos)
     if r < 0.25:
         args = rng.choice(["", "a", "a, b=1", "*args, **kw", "a, /, b, *, c=2", "self", "a: int = 3"])
@@ -246,7 +246,7 @@ def gen_module(rng, max_items=6, want_imports=True, final_newline=None, prologue
             if rng.random() < 0.08:
                 line += rng.choice([";", " ;"])
             if rng.random() < 0.25:
-                line += rng.choice(["  # trailing", " #c", "  # é"])
+                line += rng.choice(["  # trailing", " #c", "  # é", "  # type: int", "  # type: ignore", " # type: (int) -> str"])
             parts.append(line + "\n")
             i += k
         parts.append(gen_filler(rng))
@@ -276,6 +276,22 @@ def char_col(line: str, byte_off: int) -> int:
     return len(line.encode("utf-8")[:byte_off].decode("utf-8", errors="replace"))
 
 
+def decorator_at(lines, d):
+    """(1-based line, 0-based char col) of the '@' that introduces decorator expression node `d`: the first token of
+    its line; a parenthesised expression may start on a later line than its '@'."""
+    ln = d.lineno
+    cc = char_col(lines[ln - 1], d.col_offset)
+    j = lines[ln - 1].rfind("@", 0, cc)
+    if j >= 0 and not lines[ln - 1][:j].strip(" \t\f"):
+        return ln, j
+    while ln > 1:
+        ln -= 1
+        st = lines[ln - 1].lstrip(" \t\f")
+        if st.startswith("@"):
+            return ln, len(lines[ln - 1]) - len(st)
+    raise AssertionError((lines[d.lineno - 1], cc))
+
+
 def toplevel_starts(text: str):
     """
     [(line, charcol0)] (1-based line, 0-based char col) of every top-level
@@ -289,15 +305,7 @@ def toplevel_starts(text: str):
         ln, co = n.lineno, n.col_offset
         decos = getattr(n, "decorator_list", None)
         if decos:
-            d = decos[0]
-            # the '@' is the last '@' before the decorator expression on its line (skipping spaces)
-            dline = lines[d.lineno - 1]
-            cc = char_col(dline, d.col_offset)
-            j = cc - 1
-            while j >= 0 and dline[j] in " \t\f(":     # a parenthesised decorator expression starts inside its parens
-                j -= 1
-            assert j >= 0 and dline[j] == "@", (dline, cc)
-            out.append((d.lineno, j))
+            out.append(decorator_at(lines, decos[0]))
         else:
             out.append((ln, char_col(lines[ln - 1], co)))
     return out, tree
